@@ -15,6 +15,9 @@ import (
 //	close  e = 0; try { close(c) } catch ex { e = 1 }; obs += [e]
 //	rx     obs += [(<-c)]
 //	rx2    w = "W"; w, k = <-c; obs += [w, k]
+//	fwd    d <- c; if len(d) > 0 { obs += [(<-d)] } else { obs += ["none"] }
+//	       (the channel-to-channel form: one item is received from c and sent to d, a buffered channel
+//	       of interface elements; from a closed and drained c nothing is received, so nothing is sent)
 //	forin  for q in c { obs += [q] }; obs += ["E"]
 //	forinb n = 0; for q in c { obs += [q]; n++; if n >= V { break } }; obs += ["B"]
 //	       (for-in left early after V items; what is still buffered must stay in the channel)
@@ -43,6 +46,9 @@ func closedLit(op COp) (string, mv) {
 		return fmt.Sprintf("(%d + 0.75)", op.V), mv{k: 'f', f: float64(op.V) + 0.75}
 	case "str":
 		return fmt.Sprintf("\"t%d\"", op.V), mv{k: 's', s: fmt.Sprintf("t%d", op.V)}
+	case "nil":
+		// a nil item (channels of interface elements only): a message like any other
+		return "nil", mv{k: 'n'}
 	}
 	if op.V < 0 {
 		return fmt.Sprintf("(%d)", op.V), mv{k: 'i', i: op.V}
@@ -59,7 +65,7 @@ func genClosed(t *rapid.T) ClosedCase {
 	case "string":
 		lits = []string{"str"}
 	default:
-		lits = []string{"int", "float", "str"}
+		lits = []string{"int", "float", "str", "nil"}
 	}
 	n := rapid.IntRange(1, 12).Draw(t, "nops")
 	qlen, closed, alreadyClosed := 0, false, false
@@ -71,14 +77,14 @@ func genClosed(t *rapid.T) ClosedCase {
 				cand = append(cand, "send", "send", "send")
 			}
 			if qlen > 0 {
-				cand = append(cand, "rx", "rx2", "forinb")
+				cand = append(cand, "rx", "rx2", "forinb", "fwd")
 			}
 			if qlen > 1 {
 				cand = append(cand, "forinb", "forinb", "forinb")
 			}
 			cand = append(cand, "close")
 		} else {
-			cand = []string{"send", "close", "rx", "rx", "rx2", "rx2", "forin", "forinb", "forinb"}
+			cand = []string{"send", "close", "rx", "rx", "rx2", "rx2", "forin", "forinb", "forinb", "fwd", "fwd"}
 		}
 		op := COp{Op: rapid.SampledFrom(cand).Draw(t, "op")}
 		switch op.Op {
@@ -96,7 +102,7 @@ func genClosed(t *rapid.T) ClosedCase {
 			if !closed {
 				qlen++
 			}
-		case "rx", "rx2":
+		case "rx", "rx2", "fwd":
 			if qlen > 0 {
 				qlen--
 			}
@@ -119,6 +125,12 @@ func genClosed(t *rapid.T) ClosedCase {
 func renderClosed(c ClosedCase) string {
 	var b strings.Builder
 	fmt.Fprintf(&b, "c = %s\nobs = []\n", makeChan(c.Ch, len(c.Ops)%2 == 0))
+	for _, op := range c.Ops {
+		if op.Op == "fwd" {
+			b.WriteString("d = make(chan interface, 4)\n")
+			break
+		}
+	}
 	for i, op := range c.Ops {
 		if op.Bare {
 			b.WriteString("out(obs)\n")
@@ -138,6 +150,8 @@ func renderClosed(c ClosedCase) string {
 			fmt.Fprintf(&b, "e%d = 0\ntry {\n\tclose(c)\n} catch ex {\n\te%d = 1\n}\nobs += [e%d]\n", i, i, i)
 		case "rx":
 			b.WriteString("obs += [(<-c)]\n")
+		case "fwd":
+			b.WriteString("d <- c\nif len(d) > 0 {\n\tobs += [(<-d)]\n} else {\n\tobs += [\"none\"]\n}\n")
 		case "rx2":
 			fmt.Fprintf(&b, "w%d = \"W\"\nw%d, k%d = <-c\nobs += [w%d, k%d]\n", i, i, i, i, i)
 		case "forinb":
@@ -166,7 +180,10 @@ func modelClosed(c ClosedCase) (want []mv, labels []string, nontrivial bool, ok 
 	for _, op := range c.Ops {
 		switch op.Op {
 		case "send":
-			if !oneOf(op.Lit, "int", "float", "str") || op.V < -1000 || op.V > 1000 {
+			if op.Lit == "nil" && c.Ch.Type != "interface" {
+				return nil, nil, false, false
+			}
+			if !oneOf(op.Lit, "int", "float", "str", "nil") || op.V < -1000 || op.V > 1000 {
 				return nil, nil, false, false
 			}
 			_, v := closedLit(op)
@@ -191,7 +208,11 @@ func modelClosed(c ClosedCase) (want []mv, labels []string, nontrivial bool, ok 
 			}
 			q = append(q, conv(v, c.Ch.Type))
 			want = append(want, mv{k: 'i', i: 0})
-			labels = append(labels, "send")
+			if v.k == 'n' {
+				labels = append(labels, "send-nil-item")
+			} else {
+				labels = append(labels, "send")
+			}
 		case "close":
 			if op.Bare && !closed {
 				return nil, nil, false, false
@@ -219,6 +240,20 @@ func modelClosed(c ClosedCase) (want []mv, labels []string, nontrivial bool, ok 
 			case closed:
 				want = append(want, mv{k: 'n'})
 				labels = append(labels, "rx-drained")
+			default:
+				return nil, nil, false, false
+			}
+		case "fwd":
+			switch {
+			case len(q) > 0:
+				want = append(want, q[0])
+				q = q[1:]
+				labels = append(labels, "forward-item")
+				nontrivial = nontrivial || closed
+			case closed:
+				want = append(want, mv{k: 's', s: "none"})
+				labels = append(labels, "forward-from-drained-sends-nothing")
+				nontrivial = true
 			default:
 				return nil, nil, false, false
 			}
